@@ -64,12 +64,16 @@ def expEntry (scale shift dmin : Int) (x : Nat) : Except Err Int :=
     liftF (expOnNegativeValues rescale)
   else pure 0
 
+/-- `diff_min` and the loop, from the `quantise_scale` multiplier and `shift = 31 - quantise shift` -/
+def tableFrom (scale shift : Int) : Except Err (List Int) :=
+  match diffMin shift with
+  | .error e => .error e
+  | .ok dmin => (List.range 256).mapM (expEntry scale shift dmin)
+
 /-- `generate_exp_table` from `prod = double(beta) · double(input_scale) · 2^26` -/
-def generateExpTable (prod : Dbl) : Except Err (List Int) := do
-  let realBeta := pyMin prod maxRealMultiplier
-  let (scale, qshift) ← liftS (quantiseScale realBeta)
-  let shift := 31 - qshift
-  let dmin ← diffMin shift
-  (List.range 256).mapM (expEntry scale shift dmin)
+def generateExpTable (prod : Dbl) : Except Err (List Int) :=
+  match quantiseScale (pyMin prod maxRealMultiplier) with
+  | .error e => .error (.sc e)
+  | .ok (scale, qshift) => tableFrom scale (31 - qshift)
 
 end VelaVerif.SoftmaxTable
